@@ -6,7 +6,7 @@ PROP_FILE = 'Properties/C20.v'
 RULE = ('random register schedules (power, triggers of all four channels, NR50/NR51 routing, volumes, envelopes, sweep, '
         'wave RAM) over emulated time: one run of 1.06 emulated seconds across the once-per-second wrap of the sample '
         'clock, ~40 schedules of 10^4-10^5 machine cycles, runs starting just before the wrap (hook), runs with '
-        'a single routed channel switched off by length expiry / sweep overflow with its DAC left on (silence afterwards); '
+        'wave RAM written while channel 3 is playing at full level; a single routed channel switched off by length expiry / sweep overflow with its DAC left on (silence afterwards); '
         'power off, power cycles followed by re-triggers before NR50/NR51 are rewritten, and with no / only one output attached; the number of pairs is counted per machine cycle '
         '(checksum over (cycle, left, right)) and all sample values are compared as exact integers '
         'round(sample*6400); paired runs differ only in a channel not routed to the left (right) side and must give '
@@ -139,6 +139,24 @@ def generate(rng, tier):
     cases.append(('z1sweep', solo([w(NR12, 0xF0), w(NR10, 0x11), w(NR11, 0x80), w(NR13, 0x00), w(NR14, 0x84)], 7000)))
     cases.append(('z4len', solo([w(NR42, 0xF0), w(NR41, 0x3E), w(NR43, 0x11), w(NR44, 0xC0)], 9000)))
     cases.append(('z3len', solo([w(NR30, 0x80), w(NR32, 0x20), w(NR31, 0xFE), w(NR33, 0x00), w(NR34, 0xC7)], 9000)))
+    # 4d. wave RAM written WHILE channel 3 plays (routed to both sides, full level, master volume 7): the write only
+    #     changes the RAM byte being played, the samples stay within range
+    def wave_live(f, writes):
+        lines = [w(NR50, 0x77), w(NR51, 0x44), w(NR30, 0x80), w(NR32, 0x20), w(NR33, f & 0xFF), w(NR34, 0x80 | (f >> 8))]
+        for gap, i, v in writes:
+            if gap:
+                lines.append(cyc(gap))
+            lines.append(w(0xFF30 + i, v))
+        return lines + [cyc(1500), 'apu.samples']
+    cases.append(('y0', wave_live(0x000, [(0, 0, 0xFF)])))
+    cases.append(('y1', wave_live(0x000, [(0, 5, 0x73), (1024, 3, 0xFF), (1024, 7, 0xF0)])))
+    cases.append(('y2', wave_live(0x700, [(0, 0, 0xFF), (128, 1, 0xFF), (128, 2, 0x9C), (127, 2, 0xFF), (129, 9, 0xEE)])))
+    for k in range(6 if tier == 'quick' else 80):
+        f = rng.choice([0x000, 0x400, 0x700, 0x7C0, 0x7FF, rng.randrange(2048)])
+        per = max(1, (2048 - f) // 2)             # machine cycles between fetches
+        cases.append(('y%d' % (3 + k), wave_live(f, [(rng.choice([0, per, per, per - 1, per + 1, rng.randrange(1, 300)]),
+                                                      rng.randrange(16), rng.choice([0xFF, 0x73, 0xF7, 0x80, rng.randrange(256)]))
+                                                     for _ in range(rng.randrange(2, 10))])))
     # 5. NR51 = 0: silence
     cases.append(('mute', setup(rng, nr51=0) + [cyc(20000), 'apu.samples']))
     # 6. paired runs: channel ch not routed to one side, differs between A and B
